@@ -322,7 +322,7 @@ def _sops(rng, ports: int, w: int, n: int, pin: float, pout: float, preq: float,
 def gen_cases(ctx: Check, rng) -> list[Case]:
     cases: list[Case] = []
     thorough = ctx.thorough
-    n = 120 if not thorough else 600
+    n = 120 if not thorough else 300
     # ---- zipper
     for wa, wr in [(1, 1), (3, 4), (8, 2), (4, 8)] + ([(2, 2), (5, 1), (16, 16)] if thorough else []):
         cases.append(
@@ -337,8 +337,8 @@ def gen_cases(ctx: Check, rng) -> list[Case]:
         for pa, pr, prd in [(0.5, 0.5, 0.5), (0.9, 0.3, 0.9), (0.3, 0.9, 0.9), (1.0, 1.0, 1.0), (0.8, 0.8, 0.3)]:
             cases.append(_zcase(wa, wr, _zops(rng, wa, wr, n, pa, pr, prd, counters=rng.random() < 0.7), "random"))
     if thorough:
-        # every input sequence of length 5 over {no write, write}^2 x {read} (values = running counters)
-        for seq in itertools.product(range(8), repeat=5):
+        # every input sequence of length 4 over {no write, write}^2 x {read} (values = running counters)
+        for seq in itertools.product(range(8), repeat=4):
             ops, ca, cr = [], 0, 0
             for x in seq:
                 a = r = "-"
@@ -367,9 +367,11 @@ def gen_cases(ctx: Check, rng) -> list[Case]:
                     _scase(ports, depth, w, _sops(rng, ports, w, n, pin, pout, preq, presp, pclr), "random")
                 )
     if thorough:
-        # every history of length 4 for 2 ports, depth 1 and 2: per cycle which ports request, which ask, server bits
+        # every history of 3 steps for 2 ports, depth 1 and 2: per step which ports request, server bits, optional drain
         for depth in (1, 2):
             for seq in itertools.product(range(32), repeat=3):
+                if depth == 2 and any((x >> 4) & 1 for x in seq[1:]):
+                    continue  # depth 2: a drain cycle only after the first step (keeps the enumeration small)
                 ops, c = [], 0
                 for x in seq:
                     ins = []
